@@ -197,7 +197,10 @@ def _check_stack(case):
     astbuilder.ASTBuilder.processModuleAST = wrapped
     try:
         src = '\n'.join(_SNIPPETS[i] for i in case['snippets'] if 'broken' not in _SNIPPETS[i])
-        mods = [('stk', src, False)]
+        # a top-level module, and the same text inside a package next to modules that hold nothing but a docstring / nothing at all
+        mods = [('stk', src, False), ('spk', '"""A package whose __init__ is only a docstring."""\n', True), ('spk.stk', src, False),
+                ('spk.only', '"""Only a docstring."""\n', False), ('spk.empty', '', False), ('spk.comment', '# nothing\n', False),
+                ('spk.sub', '', True), ('spk.sub.leaf', '"""Leaf."""\nx = 1\n', False)]
         if any('broken' in _SNIPPETS[i] for i in case['snippets']):
             mods.append(('stkbad', 'def broken(:\n', False))
         try:
